@@ -85,6 +85,7 @@ class Builder:
         self.job = job
         self.types = job["types"]
         self.class_modules = job.get("class_modules", {})
+        self.objlists = []
 
     def cls(self, name):
         mod = self.class_modules.get(name)
@@ -102,6 +103,25 @@ class Builder:
             inner = split_top(typ[typ.index("[") + 1:-1])
             items = [self.make(t, f"{name}.{i}", values) for i, t in enumerate(inner)]
             return tuple(items) if typ.startswith("tuple[") else items
+        if typ.startswith("objlist[") or typ.startswith("pairlist["):
+            cn = typ[typ.index("[") + 1:-1]
+            n = values.get(name + "!len", 0) or 0
+            n = max(0, min(int(n), 8))
+            out = []
+            for i in range(n):
+                o = self.make(f"obj:{cn}", f"{name}.{i}", {}, depth + 1)
+                memo = None
+                for k, lst in values.items():
+                    if k.startswith(name + "[*]."):
+                        f = k[len(name) + 4:]
+                        v = decode(lst[i]) if isinstance(lst, list) and i < len(lst) else None
+                        if f == "__memo__":
+                            memo = v
+                        else:
+                            self.setattr_raw(o, f, v)
+                out.append([o, memo] if typ.startswith("pairlist[") else o)
+            self.objlists.append((cn, out, typ.startswith("pairlist[")))
+            return out
         if typ.startswith("rec["):
             d = {}
             for part in split_top(typ[4:-1]):
@@ -118,6 +138,9 @@ class Builder:
                 o = c.__new__(c)
             if isinstance(getattr(c, "logger", None), property):
                 o.__dict__["_logger"] = NULL_LOGGER
+            for k in c.__mro__:
+                for attr, dv in self.job.get("native_defaults", {}).get(k.__name__, {}).items():
+                    o.__dict__.setdefault(attr, copy.deepcopy(dv))
             try:
                 if not isinstance(getattr(c, "logger", None), property):
                     o.logger = NULL_LOGGER
@@ -148,6 +171,7 @@ class Builder:
 
     def build(self, params, values, alias):
         env = {}
+        self.objlists = []
         for p in params:
             typ = self.types.get(p)
             if typ is None:
@@ -180,6 +204,18 @@ class Builder:
                 o[rest[-1]] = v
             else:
                 self.setattr_raw(o, rest[-1], v)
+        # back references of list elements (e.g. every expression's .matcher is the matcher under test)
+        for key, tgt in self.job.get("backrefs", {}).items():
+            cn, attr = key.split(".")
+            for lcn, items, pair in self.objlists:
+                try:
+                    target = eval(tgt, {}, env)
+                except Exception:
+                    continue
+                for it in items:
+                    o = it[0] if pair else it
+                    if any(k.__name__ == cn for k in type(o).__mro__):
+                        self.setattr_raw(o, attr, target)
         for a, b in alias or []:
             vb = eval(b, {}, env)
             tgt = ast.parse(a, mode="eval").body
